@@ -122,6 +122,12 @@ pub fn tuples(cx: &mut Ctx, fam: &str, ct: &[String], cn: &[String], n: usize) -
 /// (tuple, generated from the extended domain?)
 pub fn tuples_ext(cx: &mut Ctx, fam: &str, ct: &[String], cn: &[String], n: usize) -> Vec<(Vec<Arg>, bool)> {
     let mut out = vec![];
+    for t in corner_tuples(fam) {
+        if t.len() == ct.len() && cx.call(&format!("{}::new", fam), &t).starts_with("ok") {
+            out.push((t, false));
+        }
+    }
+    let n = n + out.len();
     let mut tries = 0;
     while out.len() < n && tries < 4 * n {
         tries += 1;
